@@ -14,6 +14,7 @@ import (
 // program order), lines holds declare-const/assert in program order. An obligation
 // is checked against preamble + lines[:at].
 type Emitter struct {
+	defs map[string]string // bodies of define-fun'd intermediate values
 	zeroArrs  map[string]bool
 	preamble  []string
 	preSeen   map[string]bool
@@ -110,7 +111,92 @@ func (e *Emitter) define(hint, srt, term string) string {
 	// a nullary define-fun is expanded by the solvers like a macro: intermediate values stay
 	// syntactically transparent (important for nonlinear monomials and congruence)
 	e.line(fmt.Sprintf("(define-fun %s () %s %s)", n, srt, term))
+	if e.defs == nil {
+		e.defs = map[string]string{}
+	}
+	e.defs[n] = term
 	return n
+}
+
+// sel applies field selector i of struct sort sname to term, simplifying through the
+// definitions of intermediate values: a selector of a constructor application is the
+// component, a selector of an if-then-else whose branches select the same term is that term.
+// This keeps e.g. wt.nowRelMS the same term after other fields of wt were assigned.
+func (e *Emitter) sel(sname, fname string, i int, term string) string {
+	selName := e.fieldSel(sname, fname, i)
+	if r, ok := e.selSimp(selName, "(mk_"+sname+" ", i, term, 0); ok {
+		return r
+	}
+	return fmt.Sprintf("(%s %s)", selName, term)
+}
+
+func (e *Emitter) selSimp(selName, ctor string, i int, term string, depth int) (string, bool) {
+	if depth > 40 {
+		return "", false
+	}
+	body := term
+	if b, ok := e.defs[term]; ok {
+		body = b
+	}
+	if strings.HasPrefix(body, ctor) {
+		args := splitArgs(body[len(ctor) : len(body)-1])
+		if i < len(args) {
+			return args[i], true
+		}
+		return "", false
+	}
+	if strings.HasPrefix(body, "(ite ") {
+		args := splitArgs(body[5 : len(body)-1])
+		if len(args) == 3 {
+			a, ok1 := e.selSimp(selName, ctor, i, args[1], depth+1)
+			if !ok1 {
+				a = fmt.Sprintf("(%s %s)", selName, args[1])
+			}
+			b, ok2 := e.selSimp(selName, ctor, i, args[2], depth+1)
+			if !ok2 {
+				b = fmt.Sprintf("(%s %s)", selName, args[2])
+			}
+			if a == b {
+				return a, true
+			}
+		}
+	}
+	return "", false
+}
+
+// splitArgs splits a space-separated list of s-expressions at top level.
+func splitArgs(s string) []string {
+	var out []string
+	depth, start := 0, -1
+	for i := 0; i < len(s); i++ {
+		c := s[i]
+		switch {
+		case c == '(':
+			if depth == 0 && start < 0 {
+				start = i
+			}
+			depth++
+		case c == ')':
+			depth--
+			if depth == 0 && start >= 0 {
+				out = append(out, s[start:i+1])
+				start = -1
+			}
+		case c == ' ' || c == '\n' || c == '\t':
+			if depth == 0 && start >= 0 {
+				out = append(out, s[start:i])
+				start = -1
+			}
+		default:
+			if depth == 0 && start < 0 {
+				start = i
+			}
+		}
+	}
+	if start >= 0 {
+		out = append(out, s[start:])
+	}
+	return out
 }
 
 func isAtom(t string) bool {
